@@ -291,6 +291,18 @@ PROPS["C16"] = {
 }
 
 
+U3 = "u3_decode"
+U3_FNS = ["impl&%2::deserialize", "impl&%3::deserialize", "impl&%4::deserialize", "impl&%5::deserialize", "impl&%6::deserialize", "impl&%7::deserialize",
+          "IpVersion::ip_version_try_from", "IpAddr::deserialize", "alloc::string::String::deserialize", "SocketAddr::deserialize", "ChitchatId::deserialize",
+          "Heartbeat::deserialize", "BlockType::deserialize", "deserialize_stream", "DeletionStatusMutation::status_try_from",
+          "DeletionStatusMutation::deserialize", "KeyValueMutation::deserialize", "NodeDigest::deserialize", "DeltaOpTag::op_tag_try_from",
+          "DeltaOp::deserialize", "Digest::deserialize", "ChitchatMessage::deserialize", "MessageType::from_code", "ProtocolVersion::from_code"]
+PROPS["C09"]["verus"].append({"unit": U3, "fns": U3_FNS})
+PROPS["C09"]["assumptions"].append("A-std (decoders): slice prefix lookup `get(..n)`, `BufRead::consume` / `Buf::advance` on `&[u8]` (precondition n <= remaining, documented panic otherwise), `[u8; N]::try_from(&slice[..N])`, `from_le_bytes`, `str::from_utf8`, `Option::copied`, Ipv4Addr/Ipv6Addr/SocketAddr constructors are external_body adapters in units/u3_decode.vrs whose bodies are the original idioms; A-zstd: decompress_to_buffer fails or returns a length <= the destination length")
+PROPS["C09"]["level_text"] = "Proved, for every byte string of any length: every byte-level decoder of the wire format ([u8;N], u8..u64, bool, IpAddr, String, SocketAddr, ChitchatId, Heartbeat, NodeDigest, Digest, DeletionStatusMutation, KeyValueMutation, DeltaOp, BlockType, the block stream reader incl. its bounded decompression, and ChitchatMessage with its header) is panic-free on its real text - Verus discharges every index / slice-range / overflow / unwrap / cursor-advance obligation of the extracted bodies - and only ever consumes from its cursor. " + PROPS["C09"]["level_text"]
+PROPS["C09"]["level_note"] = "The std / bytes / zstd calls the decoders make are contracts in the unit's prelude (assumptions, listed). The listener dispatch reached by an applied key (string slicing) is proved panic-free by Kani for keys <= 4 bytes only and otherwise exercised by c15_dispatch. Bounded drivers c09_op_streams (all op sequences <= 3 / 4 over a 27-op alphabet x 4 receiver frontiers) and c09_bytes (truncations / bit flips / random bytes) remain as counterexample sources and for the end-to-end claim; they are never counted as proved."
+
+
 def K(h, what, pairs=(), grade="K", tiers=("quick", "thorough")):
     return {"harness": h, "what": what, "pairs": list(pairs), "grade": grade, "tiers": list(tiers)}
 
